@@ -19,6 +19,7 @@ type hEvent struct {
 	ts    uint32
 	bytes []byte // filled by encode
 	unit  int    // index of the unit it belongs to (-1: file prologue)
+	cfg   Cfg    // format in force when the master wrote the event (the format of its file)
 	// for rows events: the images, to compute expectations
 	table *tableDef
 	rows  *rowsDef
@@ -51,7 +52,27 @@ type history struct {
 	tables  []tableDef
 	kinds   []string // unit kinds in order
 	files   []string
+	fileCfg map[string]Cfg // format announced by each file's format description event
 	fdeTS   uint32
+}
+
+// cfgOfFile is the format of a binlog file (the history's first format when the file is unknown).
+func (h *history) cfgOfFile(file string) Cfg {
+	if c, ok := h.fileCfg[file]; ok {
+		return c
+	}
+	return h.cfg
+}
+
+// cfgAt is the format in force where the i-th event of the history is served.
+func (h *history) cfgAt(i int) Cfg {
+	if i >= 0 && i < len(h.events) {
+		return h.events[i].cfg
+	}
+	if i >= len(h.events) && len(h.events) > 0 {
+		return h.cfgOfFile(h.events[len(h.events)-1].file)
+	}
+	return h.cfg
 }
 
 var stmtCodes = map[string]int{"begin": 1, "commit": 2, "rollback": 3, "insert": 4, "update": 5, "delete": 6,
@@ -77,13 +98,14 @@ type histOpts struct {
 	seq        []string // exact unit kinds, in order
 	bigOffsets bool
 	colCases   []int // restrict column types (genColumnCase cases)
+	sameFormat bool  // every file has the same format and the files are numbered bin.00000N
 }
 
 var allUnitKinds = []string{"txXid", "txCommit", "txRollback", "ddl", "autoRows", "stmtDml", "rotation", "restart", "ignorable", "unknownStmt", "setStmt", "emptyTx"}
 
 // genHistory draws a history from the RBR grammar.
 func genHistory(r *vh.Rng, cfg Cfg, o histOpts) *history {
-	h := &history{cfg: cfg, fdeTS: uint32(r.U64())}
+	h := &history{cfg: cfg, fdeTS: uint32(r.U64()), fileCfg: map[string]Cfg{}}
 	ntab := 1 + r.Intn(3)
 	for i := 0; i < ntab; i++ {
 		t := genTable(r, 1+r.Intn(o.maxCols), cfg)
@@ -97,6 +119,7 @@ func genHistory(r *vh.Rng, cfg Cfg, o histOpts) *history {
 	fileNo := 1
 	file := fmt.Sprintf("bin.%06d", fileNo)
 	h.files = append(h.files, file)
+	h.fileCfg[file] = cfg
 	off := uint32(120 + r.Intn(20))
 	if o.bigOffsets {
 		off = 0xfff00000 + uint32(r.Intn(1000))
@@ -105,7 +128,7 @@ func genHistory(r *vh.Rng, cfg Cfg, o histOpts) *history {
 	unit := 0
 	add := func(kind string, body vh.Val, t *tableDef, rd *rowsDef) int {
 		ln := uint32(30 + r.Intn(200))
-		e := hEvent{kind: kind, body: body, file: file, start: off, next: off + ln, ts: ts, unit: unit, table: t, rows: rd}
+		e := hEvent{kind: kind, body: body, file: file, start: off, next: off + ln, ts: ts, unit: unit, table: t, rows: rd, cfg: cfg}
 		off += ln
 		ts += uint32(r.Intn(3))
 		h.events = append(h.events, e)
@@ -257,18 +280,42 @@ func genHistory(r *vh.Rng, cfg Cfg, o histOpts) *history {
 		case "rotation", "restart":
 			fileNo++
 			nf := fmt.Sprintf("bin.%06d", fileNo)
+			oldCfg := cfg
+			if !o.sameFormat {
+				// the next file need not sort after this one (index suffix growing a digit, changed basename) ...
+				switch r.Intn(5) {
+				case 0:
+					nf = fmt.Sprintf("aaa.%06d", fileNo)
+				case 1:
+					nf = fmt.Sprintf("zzz.%d", fileNo)
+				case 2:
+					nf = fmt.Sprintf("bin.%d", 1000000-fileNo) // '9' > '0': sorts after bin.00000N, and descending afterwards
+				}
+			}
 			if k == "rotation" {
 				add("rotate", vh.L(vh.A("rotate"), vh.I(4), vh.X([]byte(nf))), nil, nil)
 			} else {
 				// server restart: the old file ends with a STOP_EVENT; the switch is announced by the artificial rotate alone
 				add("raw", vh.L(vh.A("raw"), vh.I(3), vh.X(nil)), nil, nil)
 			}
+			if !o.sameFormat {
+				// ... and may have another format (SET GLOBAL binlog_checksum rotates the log; an upgraded master restarts)
+				if r.Chance(1, 2) {
+					cfg = baseCfgs[r.Intn(len(baseCfgs))]
+					if k == "rotation" || r.Bool() {
+						cfg.V2, cfg.Tid4, cfg.HLen, cfg.NSizes = oldCfg.V2, oldCfg.Tid4, oldCfg.HLen, oldCfg.NSizes
+						cfg.CRC = !oldCfg.CRC
+					}
+				}
+			}
+			h.fileCfg[nf] = cfg
 			file = nf
 			h.files = append(h.files, nf)
 			off = uint32(120 + r.Intn(20))
 			// the master then sends a fake rotate and the new file's format description
-			h.events = append(h.events, hEvent{kind: "fakerotate", body: vh.L(vh.A("rotate"), vh.I(4), vh.X([]byte(nf))), file: nf, start: 4, next: 0, ts: 0, unit: u})
-			h.events = append(h.events, hEvent{kind: "format", body: vh.L(vh.A("format"), vh.X([]byte("5.7.1-log"))), file: nf, start: 4, next: off, ts: h.fdeTS, unit: u})
+			// (the artificial rotate is written while the sender still uses the old file's checksum setting)
+			h.events = append(h.events, hEvent{kind: "fakerotate", body: vh.L(vh.A("rotate"), vh.I(4), vh.X([]byte(nf))), file: nf, start: 4, next: 0, ts: 0, unit: u, cfg: oldCfg})
+			h.events = append(h.events, hEvent{kind: "format", body: vh.L(vh.A("format"), vh.X([]byte("5.7.1-log"))), file: nf, start: 4, next: off, ts: h.fdeTS, unit: u, cfg: cfg})
 			nowFile, now = nf, 4
 			continue
 		case "ignorable":
@@ -288,7 +335,7 @@ func genHistory(r *vh.Rng, cfg Cfg, o histOpts) *history {
 func (h *history) encode(c *Ctx) {
 	reqs := make([]vh.Val, len(h.events))
 	for i, e := range h.events {
-		reqs[i] = mkEventReq(h.cfg, Hdr{TS: e.ts, SID: 7, Next: e.next, Flags: 0}, e.body, c.Rng.Bytes(4))
+		reqs[i] = mkEventReq(e.cfg, Hdr{TS: e.ts, SID: 7, Next: e.next, Flags: 0}, e.body, c.Rng.Bytes(4))
 	}
 	for i, resp := range c.M.Batch(reqs) {
 		b, ok := resp.Nth(0).Hex()
@@ -302,11 +349,12 @@ func (h *history) encode(c *Ctx) {
 // serve: the packets a master sends for a dump starting at (file, off): fake rotate, format description, then
 // every event of that file starting at or after off, and all later files.
 func (h *history) serve(c *Ctx, file string, off uint32) (evs [][]byte, idx []int) {
-	fr := c.M.Call(mkEventReq(h.cfg, Hdr{TS: 0, SID: 7, Next: 0, Flags: 0x20}, vh.L(vh.A("rotate"), vh.U(uint64(off)), vh.X([]byte(file))), []byte{0, 0, 0, 0}))
+	fc := h.cfgOfFile(file)
+	fr := c.M.Call(mkEventReq(fc, Hdr{TS: 0, SID: 7, Next: 0, Flags: 0x20}, vh.L(vh.A("rotate"), vh.U(uint64(off)), vh.X([]byte(file))), []byte{0, 0, 0, 0}))
 	b, _ := fr.Nth(0).Hex()
 	evs = append(evs, b)
 	idx = append(idx, -1)
-	fd := c.M.Call(mkEventReq(h.cfg, Hdr{TS: h.fdeTS, SID: 7, Next: 0, Flags: 0}, vh.L(vh.A("format"), vh.X([]byte("5.7.1-log"))), []byte{9, 9, 9, 9}))
+	fd := c.M.Call(mkEventReq(fc, Hdr{TS: h.fdeTS, SID: 7, Next: 0, Flags: 0}, vh.L(vh.A("format"), vh.X([]byte("5.7.1-log"))), []byte{9, 9, 9, 9}))
 	b, _ = fd.Nth(0).Hex()
 	evs = append(evs, b)
 	idx = append(idx, -1)
